@@ -87,24 +87,70 @@ Proof.
   destruct i; [rewrite Hf; reflexivity|]. rewrite (IHl i); auto; [apply orb_true_r|lia].
 Qed.
 
-(* compile time: a constant argument that does not parse makes the constructor fail with the marker *)
+(* compile time: a constant argument that does not parse makes the constructor report an error *)
 Theorem typed_args_compile_time f c0 (l : list (M bytes)) i s :
   (2 <= length l)%nat -> (i < length l)%nat -> static c0 (nth i l (Ret [])) = Some s -> atoi s = None ->
-  h_body (H (p_ifold f)) c0 (map (static c0) l) = Fail ErrorNum
-  /\ ctor_of c0 (H (p_ifold f)) l = Ret ErrorNum.
+  exists q, h_body (H (p_ifold f)) c0 (map (static c0) l) = Err q.
 Proof.
   intros L2 Li Hs Ha.
-  assert (E : h_body (H (p_ifold f)) c0 (map (static c0) l) = Fail ErrorNum).
-  { cbn [h_body H]. unfold p_ifold, argc, atleast. rewrite map_length.
-    replace (2 <=? length l)%nat with true by (symmetry; apply Nat.leb_le; auto).
-    replace (const_bad (map (static c0) l)) with true; [reflexivity|].
-    symmetry. unfold const_bad. apply existsb_nth with (d := None) (i := i).
-    - rewrite map_length; auto.
-    - rewrite (nth_indep _ None (static c0 (Ret ([] : bytes)))) by (rewrite map_length; auto).
-      rewrite (map_nth (static c0)).
-      match goal with |- match ?x with _ => _ end = _ => replace x with (Some s) by (symmetry; exact Hs) end.
-      rewrite Ha. reflexivity. }
-  split; auto. unfold ctor_of. rewrite E. reflexivity.
+  cbn [h_body H]. unfold p_ifold, argc, atleast. rewrite map_length.
+  replace (2 <=? length l)%nat with true by (symmetry; apply Nat.leb_le; auto).
+  replace (const_bad (map (static c0) l)) with true; [eexists; reflexivity|].
+  symmetry. unfold const_bad. apply existsb_nth with (d := None) (i := i).
+  - rewrite map_length; auto.
+  - rewrite (nth_indep _ None (static c0 (Ret ([] : bytes)))) by (rewrite map_length; auto).
+    rewrite (map_nth (static c0)).
+    match goal with |- match ?x with _ => _ end = _ => replace x with (Some s) by (symmetry; exact Hs) end.
+    rewrite Ha. reflexivity.
+Qed.
+
+(* ... and pre-parsing the constant operands never changes the stage: it is the stage that parses every
+   operand at run time, left to right (same value, same marker, same look-ups) *)
+Definition no_view (l : list (M bytes)) : view := map (fun _ => None) l.
+
+Lemma vstat_no_view l i : vstat (no_view l) i = None.
+Proof. unfold vstat, no_view. revert i. induction l; intros i; destruct i; simpl; auto. Qed.
+
+Lemma vstat_static c0 (l : list (M bytes)) : forall i s,
+  vstat (map (static c0) l) i = Some s -> static c0 (nth i l (Ret [])) = Some s.
+Proof.
+  unfold vstat. induction l; intros i s; destruct i; simpl; try discriminate; auto.
+Qed.
+
+Lemma typed_int_insensitive c0 (l : list (M bytes)) i k k' :
+  Forall kg l -> (forall o, meq (interp nomask l (k o)) (interp nomask l (k' o))) ->
+  meq (interp nomask l (typed_int (map (static c0) l) i k)) (interp nomask l (typed_int (no_view l) i k')).
+Proof.
+  intros K Hk. unfold typed_int. rewrite vstat_no_view.
+  destruct (vstat (map (static c0) l) i) as [s|] eqn:E.
+  - apply vstat_static in E. cbn [interp nomask].
+    rewrite (static_is_ret _ _ _ (kg_nth l i K) E). simpl. apply Hk.
+  - cbn [interp nomask]. apply bind_meq; [apply meq_refl|]. intros x. apply Hk.
+Qed.
+
+Lemma ifold_run_insensitive f c0 (l : list (M bytes)) : Forall kg l -> forall is_ acc,
+  meq (interp nomask l (ifold_run f (map (static c0) l) is_ acc))
+      (interp nomask l (ifold_run f (no_view l) is_ acc)).
+Proof.
+  intros K. induction is_ as [|i r IH]; intros acc; cbn [ifold_run].
+  - apply meq_refl.
+  - apply typed_int_insensitive; auto. intros [x|]; [|apply meq_refl].
+    destruct (iop f acc x); [apply IH|apply meq_refl].
+Qed.
+
+Theorem typed_args_insensitive f c0 (l : list (M bytes)) : Forall kg l ->
+  meq (ctor_of c0 (H (p_ifold f)) l) (interp nomask l (p_ifold f (no_view l))).
+Proof.
+  intros K. unfold ctor_of. cbn [h_mask h_body H]. unfold p_ifold, argc.
+  unfold no_view at 1. rewrite !map_length.
+  destruct (atleast 2 (length l)); [|apply meq_refl].
+  assert (Hq : forall q, meq (interp nomask l (if const_bad (map (static c0) l) then Err q else q)) (interp nomask l q))
+    by (intros q; destruct (const_bad _); apply meq_refl).
+  eapply meq_trans; [apply Hq|].
+  replace (const_bad (no_view l)) with false.
+  - apply typed_int_insensitive; auto. intros [a|]; [|apply meq_refl].
+    unfold no_view at 2. rewrite map_length. apply ifold_run_insensitive; auto.
+  - unfold no_view, const_bad. clear. induction l; simpl; auto.
 Qed.
 
 (* run time: the same text arriving from the context yields the same marker *)
